@@ -1,8 +1,41 @@
-(* Properties_C01.v — property C01 (no checker crashes or hangs) for the transliterated checkers.
-   [_total]: holds for every well-formed model file. [_total_refuted]: a well-formed witness on which the model
-   (tied to the real checker) panics. [_total_partial]: holds under the named guard, which is exactly the check the
-   Go code lacks. Termination of every modelled checker is Coq's structural-recursion guard. *)
-From GC Require Import Base GoAst Model_Checkers Proofs_Checkers Proofs_Witnesses.
+(* Properties_C01.v — property C01 (no checker crashes or hangs) for the 15 transliterated checkers: every one is total on
+   every well-formed model file. Termination is Coq's structural-recursion guard. The C01_prefix_*_refuted theorems
+   document the crashes fixed by repository commits a8b628a..98eb553: they are statements about the explicitly named
+   pre-fix definitions of Model_Checkers_Prefix.v, and C01_fixed_witnesses_ok evaluates the current definitions on the
+   same witnesses. *)
+From GC Require Import Base GoAst Model_Checkers Model_Checkers_Prefix Proofs_Checkers Proofs_Witnesses.
+
+Theorem C01_appendCombine_total : forall f, wf f = true -> forall s, run_appendCombine f <> Panic s.
+Proof. exact (fun f _ => appendCombine_total f). Qed.
+Print Assumptions C01_appendCombine_total.
+
+Theorem C01_appendAssign_total : forall f, wf f = true -> forall s, run_appendAssign f <> Panic s.
+Proof. exact (fun f _ => appendAssign_total f). Qed.
+Print Assumptions C01_appendAssign_total.
+
+Theorem C01_newDeref_total : forall f, wf f = true -> forall s, run_newDeref f <> Panic s.
+Proof. exact (fun f _ => newDeref_total f). Qed.
+Print Assumptions C01_newDeref_total.
+
+Theorem C01_typeDefFirst_total : forall f, wf f = true -> forall s, run_typeDefFirst f <> Panic s.
+Proof. exact typeDefFirst_total. Qed.
+Print Assumptions C01_typeDefFirst_total.
+
+Theorem C01_sortSlice_total : forall f, wf f = true -> forall s, run_sortSlice f <> Panic s.
+Proof. exact (fun f _ => sortSlice_total f). Qed.
+Print Assumptions C01_sortSlice_total.
+
+Theorem C01_evalOrder_total : forall f, wf f = true -> forall s, run_evalOrder f <> Panic s.
+Proof. exact (fun f _ => evalOrder_total f). Qed.
+Print Assumptions C01_evalOrder_total.
+
+Theorem C01_dupOption_total : forall f, wf f = true -> forall s, run_dupOption f <> Panic s.
+Proof. exact (fun f _ => dupOption_total f). Qed.
+Print Assumptions C01_dupOption_total.
+
+Theorem C01_flagName_total : forall f, wf f = true -> forall s, run_flagName f <> Panic s.
+Proof. exact flagName_total. Qed.
+Print Assumptions C01_flagName_total.
 
 Theorem C01_filepathJoin_total : forall f, wf f = true -> forall s, run_filepathJoin f <> Panic s.
 Proof. exact (fun f _ => filepathJoin_total f). Qed.
@@ -12,102 +45,76 @@ Theorem C01_rangeAppendAll_total : forall f, wf f = true -> forall s, run_rangeA
 Proof. exact (fun f _ => rangeAppendAll_total f). Qed.
 Print Assumptions C01_rangeAppendAll_total.
 
-Theorem C01_appendCombine_total_refuted : exists f, wf f = true /\ exists s, run_appendCombine f = Panic s.
-Proof. exact appendCombine_refuted. Qed.
-Print Assumptions C01_appendCombine_total_refuted.
+Theorem C01_badRegexp_total : forall f, wf f = true -> forall s, run_badRegexp_entry f <> Panic s.
+Proof. exact (fun f _ => regexp_entry_total badRegexp_names "badRegexp" f). Qed.
+Print Assumptions C01_badRegexp_total.
 
-Theorem C01_appendAssign_total_refuted : exists f, wf f = true /\ exists s, run_appendAssign f = Panic s.
-Proof. exact appendAssign_refuted. Qed.
-Print Assumptions C01_appendAssign_total_refuted.
+Theorem C01_regexpPattern_total : forall f, wf f = true -> forall s, run_regexpPattern_entry f <> Panic s.
+Proof. exact (fun f _ => regexp_entry_total regexpPattern_names "regexpPattern" f). Qed.
+Print Assumptions C01_regexpPattern_total.
 
-Theorem C01_newDeref_total_refuted : exists f, wf f = true /\ exists s, run_newDeref f = Panic s.
-Proof. exact newDeref_refuted. Qed.
-Print Assumptions C01_newDeref_total_refuted.
+Theorem C01_regexpSimplify_total : forall f, wf f = true -> forall s, run_regexpSimplify_entry f <> Panic s.
+Proof. exact (fun f _ => regexp_entry_total regexpSimplify_names "regexpSimplify" f). Qed.
+Print Assumptions C01_regexpSimplify_total.
 
-Theorem C01_typeDefFirst_total_refuted : exists f, wf f = true /\ exists s, run_typeDefFirst f = Panic s.
-Proof. exact typeDefFirst_refuted. Qed.
-Print Assumptions C01_typeDefFirst_total_refuted.
+Theorem C01_truncateCmp_total : forall skip f, wf f = true -> forall s, run_truncateCmp skip f <> Panic s.
+Proof. exact (fun skip f _ => truncateCmp_total skip f). Qed.
+Print Assumptions C01_truncateCmp_total.
 
-Theorem C01_sortSlice_total_refuted : exists f, wf f = true /\ exists s, run_sortSlice f = Panic s.
-Proof. exact sortSlice_refuted. Qed.
-Print Assumptions C01_sortSlice_total_refuted.
+Theorem C01_nilValReturn_total : forall f, wf f = true -> forall s, run_nilValReturn f <> Panic s.
+Proof. exact (fun f _ => nilValReturn_total f). Qed.
+Print Assumptions C01_nilValReturn_total.
 
-Theorem C01_evalOrder_total_refuted : exists f, wf f = true /\ exists s, run_evalOrder f = Panic s.
-Proof. exact evalOrder_refuted. Qed.
-Print Assumptions C01_evalOrder_total_refuted.
+Theorem C01_prefix_appendCombine_refuted : exists f, wf f = true /\ exists s, run_appendCombine_prefix f = Prefix.Panic s.
+Proof. exact appendCombine_prefix_refuted. Qed.
+Print Assumptions C01_prefix_appendCombine_refuted.
 
-Theorem C01_dupOption_total_refuted : exists f, wf f = true /\ exists s, run_dupOption f = Panic s.
-Proof. exact dupOption_refuted. Qed.
-Print Assumptions C01_dupOption_total_refuted.
+Theorem C01_prefix_appendAssign_refuted : exists f, wf f = true /\ exists s, run_appendAssign_prefix f = Prefix.Panic s.
+Proof. exact appendAssign_prefix_refuted. Qed.
+Print Assumptions C01_prefix_appendAssign_refuted.
 
-Theorem C01_flagName_total_refuted : exists f, wf f = true /\ exists s, run_flagName f = Panic s.
-Proof. exact flagName_refuted. Qed.
-Print Assumptions C01_flagName_total_refuted.
+Theorem C01_prefix_newDeref_refuted : exists f, wf f = true /\ exists s, run_newDeref_prefix f = Prefix.Panic s.
+Proof. exact newDeref_prefix_refuted. Qed.
+Print Assumptions C01_prefix_newDeref_refuted.
 
-Theorem C01_badRegexp_total_refuted : exists f, wf f = true /\ exists s, run_badRegexp_entry f = Panic s.
-Proof. exact badRegexp_refuted. Qed.
-Print Assumptions C01_badRegexp_total_refuted.
+Theorem C01_prefix_typeDefFirst_refuted : exists f, wf f = true /\ exists s, run_typeDefFirst_prefix f = Prefix.Panic s.
+Proof. exact typeDefFirst_prefix_refuted. Qed.
+Print Assumptions C01_prefix_typeDefFirst_refuted.
 
-Theorem C01_regexpPattern_total_refuted : exists f, wf f = true /\ exists s, run_regexpPattern_entry f = Panic s.
-Proof. exact regexpPattern_refuted. Qed.
-Print Assumptions C01_regexpPattern_total_refuted.
+Theorem C01_prefix_sortSlice_refuted : exists f, wf f = true /\ exists s, run_sortSlice_prefix f = Prefix.Panic s.
+Proof. exact sortSlice_prefix_refuted. Qed.
+Print Assumptions C01_prefix_sortSlice_refuted.
 
-Theorem C01_regexpSimplify_total_refuted : exists f, wf f = true /\ exists s, run_regexpSimplify_entry f = Panic s.
-Proof. exact regexpSimplify_refuted. Qed.
-Print Assumptions C01_regexpSimplify_total_refuted.
+Theorem C01_prefix_evalOrder_refuted : exists f, wf f = true /\ exists s, run_evalOrder_prefix f = Prefix.Panic s.
+Proof. exact evalOrder_prefix_refuted. Qed.
+Print Assumptions C01_prefix_evalOrder_refuted.
 
-Theorem C01_appendCombine_total_partial : forall f, wf f = true -> all_nodes_sat g_append_args f -> forall s, run_appendCombine f <> Panic s.
-Proof. exact (fun f _ => appendCombine_partial f). Qed.
-Print Assumptions C01_appendCombine_total_partial.
+Theorem C01_prefix_dupOption_refuted : exists f, wf f = true /\ exists s, run_dupOption_prefix f = Prefix.Panic s.
+Proof. exact dupOption_prefix_refuted. Qed.
+Print Assumptions C01_prefix_dupOption_refuted.
 
-Theorem C01_appendAssign_total_partial : forall f, wf f = true -> all_nodes_sat g_append_args f -> forall s, run_appendAssign f <> Panic s.
-Proof. exact appendAssign_partial. Qed.
-Print Assumptions C01_appendAssign_total_partial.
+Theorem C01_prefix_flagName_refuted : exists f, wf f = true /\ exists s, run_flagName_prefix f = Prefix.Panic s.
+Proof. exact flagName_prefix_refuted. Qed.
+Print Assumptions C01_prefix_flagName_refuted.
 
-Theorem C01_newDeref_total_partial : forall f, wf f = true -> all_nodes_sat g_new_args f -> forall s, run_newDeref f <> Panic s.
-Proof. exact (fun f _ => newDeref_partial f). Qed.
-Print Assumptions C01_newDeref_total_partial.
+Theorem C01_prefix_badRegexp_refuted : exists f, wf f = true /\ exists s, run_badRegexp_entry_prefix f = Prefix.Panic s.
+Proof. exact badRegexp_prefix_refuted. Qed.
+Print Assumptions C01_prefix_badRegexp_refuted.
 
-Theorem C01_typeDefFirst_total_partial : forall f, wf f = true -> (forall d, In d (decls f) -> g_recv_plain d = true) -> forall s, run_typeDefFirst f <> Panic s.
-Proof. exact typeDefFirst_partial. Qed.
-Print Assumptions C01_typeDefFirst_total_partial.
+Theorem C01_prefix_regexpPattern_refuted : exists f, wf f = true /\ exists s, run_regexpPattern_entry_prefix f = Prefix.Panic s.
+Proof. exact regexpPattern_prefix_refuted. Qed.
+Print Assumptions C01_prefix_regexpPattern_refuted.
 
-Theorem C01_sortSlice_total_partial : forall f, wf f = true -> all_nodes_sat g_lit_returns_value f -> forall s, run_sortSlice f <> Panic s.
-Proof. exact (fun f _ => sortSlice_partial f). Qed.
-Print Assumptions C01_sortSlice_total_partial.
+Theorem C01_prefix_regexpSimplify_refuted : exists f, wf f = true /\ exists s, run_regexpSimplify_entry_prefix f = Prefix.Panic s.
+Proof. exact regexpSimplify_prefix_refuted. Qed.
+Print Assumptions C01_prefix_regexpSimplify_refuted.
 
-Theorem C01_evalOrder_total_partial : forall f, wf f = true -> all_nodes_sat g_return_calls_methods f -> forall s, run_evalOrder f <> Panic s.
-Proof. exact (fun f _ => evalOrder_partial f). Qed.
-Print Assumptions C01_evalOrder_total_partial.
+Theorem C01_fixed_witnesses_ok : 
+  run_appendCombine Witnesses.w_append_zero = Ok [] /\ run_appendAssign Witnesses.w_append_zero = Ok [] /\ run_newDeref Witnesses.w_new_zero = Ok [] /\
+  run_typeDefFirst Witnesses.w_paren_recv = Ok [] /\ run_sortSlice Witnesses.w_bare_return = Ok [] /\ run_evalOrder Witnesses.w_funcfield = Ok [] /\
+  run_dupOption Witnesses.w_forward_variadic = Ok [] /\ run_flagName Witnesses.w_flag_forward = Ok [] /\
+  run_badRegexp_entry Witnesses.w_regexp_zero = Ok [] /\ run_regexpPattern_entry Witnesses.w_regexp_zero = Ok [] /\
+  run_regexpSimplify_entry Witnesses.w_regexp_zero = Ok [] /\ run_newDeref Witnesses.w_new_nolit = Ok [].
+Proof. exact witnesses_regress. Qed.
+Print Assumptions C01_fixed_witnesses_ok.
 
-Theorem C01_dupOption_total_partial : forall f, wf f = true -> all_nodes_sat g_variadic_fixed_args f -> forall s, run_dupOption f <> Panic s.
-Proof. exact (fun f _ => dupOption_partial f). Qed.
-Print Assumptions C01_dupOption_total_partial.
-
-Theorem C01_flagName_total_partial : forall f, wf f = true -> all_nodes_sat g_flagvar_two_args f -> forall s, run_flagName f <> Panic s.
-Proof. exact flagName_partial. Qed.
-Print Assumptions C01_flagName_total_partial.
-
-Theorem C01_badRegexp_total_partial : forall f, wf f = true -> all_nodes_sat (g_spelled_call_has_args badRegexp_names) f -> forall s, run_badRegexp_entry f <> Panic s.
-Proof. exact (fun f _ => regexp_entry_partial badRegexp_names "badRegexp" f). Qed.
-Print Assumptions C01_badRegexp_total_partial.
-
-Theorem C01_regexpPattern_total_partial : forall f, wf f = true -> all_nodes_sat (g_spelled_call_has_args regexpPattern_names) f -> forall s, run_regexpPattern_entry f <> Panic s.
-Proof. exact (fun f _ => regexp_entry_partial regexpPattern_names "regexpPattern" f). Qed.
-Print Assumptions C01_regexpPattern_total_partial.
-
-Theorem C01_regexpSimplify_total_partial : forall f, wf f = true -> all_nodes_sat (g_spelled_call_has_args regexpSimplify_names) f -> forall s, run_regexpSimplify_entry f <> Panic s.
-Proof. exact (fun f _ => regexp_entry_partial regexpSimplify_names "regexpSimplify" f). Qed.
-Print Assumptions C01_regexpSimplify_total_partial.
-
-(* the hypotheses are satisfiable *)
-Example C01_guards_satisfiable :
-  wf Witnesses.ns_filepath_alias = true /\
-  forallb g_append_args (all_nodes Witnesses.ns_filepath_alias) = true /\
-  forallb g_new_args (all_nodes Witnesses.ns_filepath_alias) = true /\
-  forallb g_variadic_fixed_args (all_nodes Witnesses.ns_filepath_alias) = true /\
-  forallb g_flagvar_two_args (all_nodes Witnesses.ns_filepath_alias) = true /\
-  forallb g_lit_returns_value (all_nodes Witnesses.ns_filepath_alias) = true /\
-  forallb g_return_calls_methods (all_nodes Witnesses.ns_filepath_alias) = true /\
-  forallb g_recv_plain (decls Witnesses.ns_filepath_alias) = true.
-Proof. exact guards_satisfiable. Qed.
